@@ -252,6 +252,83 @@ theorem reduce_spec (A : AggType) (calls : List Arrays) (hw : ∀ c ∈ calls, W
   rw [(reduce_spec_acc A calls _ (WF1_init A) hw).2 t]
   simp [Arrays.init, arrGet, Map.lookup]
 
+/-! ### the memory query of one page, end to end -/
+
+theorem curValue_noData' {w : Nat} {b : Buf} (hi : BufInv w b) (hd : b.hasData = false) (t : Nat) :
+    curValue b t = none := by
+  unfold curValue
+  split
+  · rfl
+  · exact hi.empty hd _
+
+theorem fsum_add {ι : Type} {A : AggType} (hc : AggComm A) (l : List ι) (f g : ι → Option Int) :
+    fsum A l (fun i => ocomb A (f i) (g i)) = ocomb A (fsum A l f) (fsum A l g) := by
+  induction l with
+  | nil => rfl
+  | cons x rest ih =>
+    rw [fsum_cons, fsum_cons, fsum_cons, ih]
+    -- (a ⊕ b) ⊕ (F ⊕ G) = (a ⊕ F) ⊕ (b ⊕ G)
+    rw [ocomb_assoc, ocomb_assoc]
+    congr 1
+    rw [← ocomb_assoc, ← ocomb_assoc, ocomb_comm hc (g x) (fsum A rest f)]
+
+theorem fsum_congr {ι : Type} (A : AggType) (l : List ι) (f g : ι → Option Int) (h : ∀ i ∈ l, f i = g i) :
+    fsum A l f = fsum A l g := by
+  induction l with
+  | nil => rfl
+  | cons x rest ih =>
+    rw [fsum_cons, fsum_cons, h x (by simp), ih (fun i hi => h i (by simp [hi]))]
+
+theorem pageCalls_wf (A : AggType) (b : Buf) (lo hi tLo tHi g0 qs ratio : Nat) :
+    ∀ c ∈ pageCalls [A] b lo hi tLo tHi g0 qs ratio, WF1 A c := by
+  intro c hc
+  unfold pageCalls at hc
+  cases hcomp : b.compress with
+  | none => simp [hcomp] at hc; subst hc; exact dsCall_wf A _ _ _ _ _ _ _ _
+  | some cc =>
+    simp [hcomp] at hc
+    rcases hc with e | e <;> subst e <;> exact dsCall_wf A _ _ _ _ _ _ _ _
+
+/-- what a memory query computes from one page, whatever its window/compress state:
+the bucket-wise fold of the page's memory view. -/
+theorem pageCalls_spec {w : Nat} {A : AggType} (hc : AggComm A) (b : Buf) (hi' : BufInv w b)
+    (lo hi tLo tHi g0 qs ratio t : Nat) :
+    arrGet ((pageCalls [A] b lo hi tLo tHi g0 qs ratio).foldl reduceInto (Arrays.init [A])) A t =
+      fsum A (slotsOf lo hi)
+        (fun s => if tLo ≤ s ∧ s ≤ tHi ∧ (g0 + s - qs) / ratio = t then memView A b s else none) := by
+  rw [reduce_spec A _ (pageCalls_wf A b lo hi tLo tHi g0 qs ratio) t]
+  have hcur : ∀ s, (if b.hasData then curValue b s else none) = curValue b s := by
+    intro s
+    cases hd : b.hasData with
+    | true => simp
+    | false => simp [curValue_noData' hi' hd s]
+  unfold pageCalls
+  cases hcomp : b.compress with
+  | none =>
+    simp only [List.nil_append]
+    rw [fsum_cons]
+    simp only [fsum, List.foldl_nil, ocomb_none_right]
+    rw [dsCall_spec]
+    apply fsum_congr
+    intro s _
+    simp [memView, hcomp, oldValue, hcur]
+  | some cc =>
+    simp only [List.singleton_append]
+    rw [fsum_cons, fsum_cons]
+    simp only [fsum, List.foldl_nil, ocomb_none_right]
+    rw [dsCall_spec, dsCall_spec, ← hcomp]
+    have := fsum_add hc (slotsOf lo hi)
+      (fun s => if tLo ≤ s ∧ s ≤ tHi ∧ (g0 + s - qs) / ratio = t then oldValue b.compress s else none)
+      (fun s => if tLo ≤ s ∧ s ≤ tHi ∧ (g0 + s - qs) / ratio = t then
+          (if b.hasData then curValue b s else none) else none)
+    unfold fsum at this ⊢
+    rw [← this]
+    apply fsum_congr
+    intro s _
+    by_cases hcond : tLo ≤ s ∧ s ≤ tHi ∧ (g0 + s - qs) / ratio = t
+    · simp [hcond, memView]
+    · simp [hcond]
+
 /-! ### month-type family selection -/
 
 theorem monthStart_zero (lens : List Nat) : monthStart lens 0 = 0 := by
